@@ -276,8 +276,13 @@ def run_case(ctx, oq, cfg, qmm, rng):
                           dict(cfg=cfgj(cfg), msg=str(e)[:300]))
             return None, e
 
-    # 1. the quantized linear function
+    # 1. the quantized linear function (which must not touch its operands)
+    xfp, wfp = fp.tensor_fp(x), fp.tensor_fp(w)
     out, exc = guarded("linear", F.linear, x, w, bias)
+    if fp.tensor_fp(x) != xfp or fp.tensor_fp(w) != wfp:
+        ctx.violation(dict(kind="operand_modified", route="linear", act=sigx["act"] != "float", weight=cfg["wk"],
+                           dtype=str(cfg["wd"]), N1=cfg["N"] == 1), dict(cfg=cfgj(cfg)))
+        return
     if exc is None:
         want_shape = tuple(x.shape[:-1]) + (cfg["N"],)
         if tuple(out.shape) != want_shape:
